@@ -284,12 +284,19 @@ func VH_C12_mixed(caseID int) {
 
 // VH_C12_entry: the follow-up request enters through the application's real request handler, parsed
 // from wire bytes (so RawHeaders is filled and the handler itself decides whether to decode the
-// cookie), with each standard method (a 307/308 redirect preserves the method). case = method index.
+// cookie), with each standard method (a 307/308 redirect preserves the method). case = method index
+// (+10: custom context).
 // The message is concrete and wire-safe: the wire parser runs on concrete bytes.
 func VH_C12_entry(mi int) {
 	methods := []string{MethodGet, MethodHead, MethodPost, MethodPut, MethodDelete, MethodPatch, MethodOptions}
-	method := methods[mi]
+	method := methods[mi%10]
 	app := vNewApp(vCfgs[0])
+	if mi >= 10 {
+		// 10+i: an application with a custom context (its own request handler has the same gate)
+		app.NewCtxFunc(func(app *App) CustomCtx {
+			return &vCustomCtx{DefaultCtx: *NewDefaultCtx(app)}
+		})
+	}
 	app.Get("/issue", func(c Ctx) error {
 		return c.Redirect().Status(StatusTemporaryRedirect).With("k", "v", 35).To("/show")
 	})
